@@ -82,6 +82,8 @@ impl<T: Clone> QueueRW<T> for BCast<T> {
 
     #[inline(always)]
     unsafe fn get_val(val: &mut T) -> T {
+        #[cfg(feature = "multiqueue2_verif")]
+        crate::verif_hooks::plain_access(val as *const T);
         val.clone()
     }
 
@@ -116,6 +118,8 @@ impl<T> QueueRW<T> for MPMC<T> {
 
     #[inline(always)]
     unsafe fn get_val(val: &mut T) -> T {
+        #[cfg(feature = "multiqueue2_verif")]
+        crate::verif_hooks::plain_access(val as *const T);
         ptr::read(val)
     }
 
@@ -414,8 +418,6 @@ impl<RW: QueueRW<T>, T> MultiQueue<RW, T> {
                         continue;
                     }
                 }
-                #[cfg(feature = "multiqueue2_verif")]
-                crate::verif_hooks::plain_access(&read_cell.val as *const T);
                 let rval = dependently_mut(seen_tag, &mut read_cell.val, |rc| RW::get_val(rc));
                 fence(Release);
                 if !is_single {
